@@ -168,7 +168,18 @@ def run_playback_test(runner, ws, prop, h, test_src, test_name, profiles=("dev",
         # panic!("{..}")): it reports a placeholder. Such a failure is matched by *where* the native
         # panic happens instead: anywhere in the code under test, i.e. not in a harness file.
         placeholder = any("placeholder message" in (e or "") for e in (expect or []))
-        in_code_under_test = [m_ for loc, m_ in located if rdir not in loc and "/verif/" not in loc and "kani" not in loc.lower()]
+        def under_test(loc):
+            if rdir not in loc and "/verif/" not in loc and "kani" not in loc.lower():
+                return True
+            # a generated harness file starts with code copied verbatim from /repo (mod actions):
+            # a panic above the "fixed harness text" marker is a panic of the code under test
+            mm = re.match(r"(.*?):(\d+):\d+$", loc)
+            if mm and os.path.basename(mm.group(1)) == os.path.basename(copy) and os.path.exists(copy):
+                lines = open(copy, encoding="utf-8").read().split("\n")
+                marker = next((i + 1 for i, l in enumerate(lines) if "---- fixed harness text" in l), 0)
+                return marker > 0 and int(mm.group(2)) < marker
+            return False
+        in_code_under_test = [m_ for loc, m_ in located if under_test(loc)]
         def same_reason(msg):
             if not expect:
                 return True
